@@ -124,6 +124,21 @@ func canonSent(tag string, state interface{}) string {
 	return normJSON(state)
 }
 
+// canonFromText is canonSent for a state known only by its JSON text (a message dastard itself queued).
+func canonFromText(tag, text string) string {
+	key := strings.ToLower(tag)
+	if z := typedZero(key); z != nil {
+		if err := json.Unmarshal([]byte(text), z); err == nil {
+			return mustJSON(project(key, z))
+		}
+	}
+	var g interface{}
+	if err := json.Unmarshal([]byte(text), &g); err != nil {
+		return "!not JSON: " + text
+	}
+	return normJSON(g)
+}
+
 // canonEntries renders every top-level key of a viper instance holding a configuration that was read
 // from a file (or merged from a map).  keep filters the keys (nil: all).
 func canonEntries(v *viper.Viper, keep func(string) bool) []Entry {
